@@ -133,11 +133,13 @@ class Boc:
             result['size_bytes'] = data[4]
         else:
             raise BocError(f'unknown boc prefix: {data[:4]}')
-        if data_len - 5 < 1 + 5 * result['size_bytes']:
+        if data_len < 6:
             raise BocError(f'can\'t parse boc header: {data[:4]}')
         offset_bytes = data[5]
         result['offset_bytes'] = offset_bytes
         size_bytes = result['size_bytes']
+        if data_len < 6 + 3 * size_bytes + offset_bytes:
+            raise BocError(f'can\'t parse boc header: {data[:4]}')
 
         end = 6 + 3 * size_bytes
         result['cells_num'], result['roots_num'], result['absent_num'] \
